@@ -1,0 +1,22 @@
+//go:build verif
+
+package any
+
+// Contracts for the any plugin (C14, C01, C09), read by /verif's gvc.
+
+//@ func (g *gen) Add(name string, typs []types.Type) (r string, err error)
+//@ param typs: len=0,1,2,3
+//@ param name: classes=Ident
+
+//@ func (g *gen) Generate(typs []types.Type) (err error)
+//@ param typs: len=1
+
+//@ func (g *gen) genFuncFor(in types.Type) (err error)
+//@ emits: decls
+//@ serves: any len=1 in=typs[0]
+//@ o-sig: (pred func($in) bool, list []$in) (r bool)
+//@ o-requires: pred != nil
+//@ o-ensures: [any] r <==> exists j int :: 0 <= j && j < len(list) && pred(list[j])
+//@ o-ensures: [in-order] traceLen() <= len(list) && forall j int :: 0 <= j && j < traceLen() ==> called(j, pred, list[j])
+//@ o-ensures: [stops-at-first-success] (!r ==> traceLen() == len(list)) && (r ==> traceLen() >= 1 && pred(list[traceLen() - 1]))
+//@ o-loop: 1: invariant traceLen() == $i && forall j int :: 0 <= j && j < $i ==> !pred(list[j]) && called(j, pred, list[j])
